@@ -7,7 +7,8 @@ import json, os
 import vf, batch
 from xmlgen import render_xml
 
-BASE_DECL = """const int cc = 2; const int cca[2] = {1, 2};
+BASE_DECL = """typedef struct { int u; int w; } SR;
+const int cc = 2; const int cca[2] = {1, 2};
 int m = 1; int ma[2] = {1, 1};
 int qa[4]; bool b; int i;
 int idf(int q) { return q; }
@@ -33,6 +34,10 @@ def render_chain(n, leaf, chain):
             tgt.append("int %s() { return %s; }" % (nm, e)); e = nm + "()"
         elif link == "flocal":
             tgt.append("int %s() { int t = %s; return t; }" % (nm, e)); e = nm + "()"
+        elif link == "flocalarr":
+            tgt.append("int %s() { int t[2] = {%s, 0}; return t[0]; }" % (nm, e)); e = nm + "()"
+        elif link == "flocalrec":
+            tgt.append("int %s() { SR t = {%s, 0}; return t.u; }" % (nm, e)); e = nm + "()"
         elif link == "fcall":
             tgt.append("int %s() { return idf(%s); }" % (nm, e)); e = nm + "()"
     return g, t, e, in_t
